@@ -24,9 +24,21 @@ Init == now = 0 /\ rdl = 0 /\ wdl = 0 /\ closed = FALSE /\ cause = "none" /\ his
 
 Do(op, d) == /\ ~closed /\ nops < MaxOps /\ nops' = nops + 1 /\ hist' = Append(hist, <<now, op, d>>)
 
-SetR(d)  == Do("setr", d)  /\ rdl' = now + d /\ UNCHANGED <<now, wdl, closed, cause>> /\ UNCHANGED backlog
-SetW(d)  == Do("setw", d)  /\ wdl' = now + d /\ UNCHANGED <<now, rdl, closed, cause>> /\ UNCHANGED backlog
-SetRW(d) == Do("setrw", d) /\ rdl' = now + d /\ wdl' = now + d /\ UNCHANGED <<now, closed, cause>> /\ UNCHANGED backlog
+\* d = 0 stands for a deadline that is already in the past when it is set: the connection is closed at once
+\* with the timeout error of that direction (of either direction for the combined call)
+Past == IF now - 1 = 0 THEN -1 ELSE now - 1
+SetR(d)  == /\ Do("setr", d)
+            /\ IF d = 0 THEN rdl' = Past /\ closed' = TRUE /\ cause' = "rtimeout"
+                        ELSE rdl' = now + d /\ UNCHANGED <<closed, cause>>
+            /\ UNCHANGED <<now, wdl, backlog>>
+SetW(d)  == /\ Do("setw", d)
+            /\ IF d = 0 THEN wdl' = Past /\ closed' = TRUE /\ cause' = "wtimeout"
+                        ELSE wdl' = now + d /\ UNCHANGED <<closed, cause>>
+            /\ UNCHANGED <<now, rdl, backlog>>
+SetRW(d) == /\ Do("setrw", d)
+            /\ IF d = 0 THEN rdl' = Past /\ wdl' = Past /\ closed' = TRUE /\ cause' \in {"rtimeout", "wtimeout"}
+                        ELSE rdl' = now + d /\ wdl' = now + d /\ UNCHANGED <<closed, cause>>
+            /\ UNCHANGED <<now, backlog>>
 ClearR   == Do("clearr", 0) /\ rdl' = 0 /\ UNCHANGED <<now, wdl, closed, cause>> /\ UNCHANGED backlog
 ClearW   == Do("clearw", 0) /\ wdl' = 0 /\ UNCHANGED <<now, rdl, closed, cause>> /\ UNCHANGED backlog
 ClearRW  == Do("clearrw", 0) /\ rdl' = 0 /\ wdl' = 0 /\ UNCHANGED <<now, closed, cause>> /\ UNCHANGED backlog
